@@ -157,6 +157,10 @@ type Node struct {
 	D         *DBFT
 	Timer     *VTimer
 	WatchFlag bool        // Config.WatchOnly()
+	// FlagCleared: the application cleared the flag while the node was at (FlagClearedH, FlagClearedV)
+	FlagCleared  bool
+	FlagClearedH uint32
+	FlagClearedV byte
 	ReadSkew  bool        // the clock may move between two reads of one call (see libNow)
 	Reads     []time.Time // clock readings served to the library during the current call
 	Crashed   bool
@@ -391,26 +395,30 @@ func (n *Node) newDBFT() {
 			}),
 		)
 	}
+	subscribe := dbft.WithSubscribeForTxs[vt.H](func() {
+		if w.SubHook != nil {
+			w.SubHook(n)
+		}
+		n.Subscribed = true
+		n.ev(EvSubscribe, nil, "")
+		for _, m := range w.Mons {
+			if m.Subscribe != nil {
+				m.Subscribe(n)
+			}
+		}
+	})
 	if w.Cfg.MaxTimePerBlock > 0 {
-		opts = append(opts,
-			dbft.WithMaxTimePerBlock[vt.H](func() time.Duration { _, m := n.BlockTimes(); return m }),
-			dbft.WithSubscribeForTxs[vt.H](func() {
-				if w.SubHook != nil {
-					w.SubHook(n)
-				}
-				n.Subscribed = true
-				n.ev(EvSubscribe, nil, "")
-				for _, m := range w.Mons {
-					if m.Subscribe != nil {
-						m.Subscribe(n)
-					}
-				}
-			}),
-		)
+		opts = append(opts, dbft.WithMaxTimePerBlock[vt.H](func() time.Duration { _, m := n.BlockTimes(); return m }), subscribe)
 	} else if w.Cfg.SubscribeProbe {
-		// never valid to be called; config forbids setting it without
-		// MaxTimePerBlock, so nothing to install.
-		_ = 0
+		// An application that leaves its subscription callback in place although the extension is not configured.  The
+		// unchanged library refuses such a configuration outright - which also means "never used"; a library that
+		// accepts it must still never call it (seeded change C16l).
+		if d, err := dbft.New[vt.H](append(append([]func(*dbft.Config[vt.H]){}, opts...), subscribe)...); err == nil {
+			w.Stat("subscribe_only_config_accepted")
+			n.D = d
+			return
+		}
+		w.Stat("subscribe_only_config_rejected")
 	}
 	d, err := dbft.New[vt.H](opts...)
 	if err != nil {
